@@ -191,7 +191,11 @@ def build(spec):
     for sec, mn, unit, vt, v, descr in spec["items"]:
         las.sections[sec].append(HeaderItem(mn, unit, mkval(vt, v), descr))
     for c in spec["curves"]:
-        if c["kind"] == "float":
+        if c["kind"] == "float" and c.get("objarr"):
+            # the same float samples held in an object-dtype array (what set_data with a mixed float/text array,
+            # append_curve with an object array or set_data_from_df(las.df()) with a text curve leave behind)
+            data = np.array([float("nan") if x is None else float(x) for x in c["vals"]], dtype=object)
+        elif c["kind"] == "float":
             data = np.array([np.nan if x is None else x for x in c["vals"]], dtype=float)
         else:
             data = np.array(list(c["vals"]))
@@ -288,7 +292,7 @@ def check_json(spec):
                 fails.append(("json-carries-every-header-value", k, "%s.%s = %r (%s) is %r in the JSON" % (sec, mn, value, vt, J)))
         data = doc.get("data") if isinstance(doc, dict) else None
         for i, c in enumerate(spec["curves"]):
-            k = "json;curve=%s;nan=%d;dupname=%d" % (c["kind"], int(None in c["vals"]), int(session[i] != c["mn"]))
+            k = "json;curve=%s%s;nan=%d;dupname=%d" % (c["kind"], "(object-array)" if c.get("objarr") else "", int(None in c["vals"]), int(session[i] != c["mn"]))
             try:
                 L = data[session[i]]
             except Exception:
@@ -972,6 +976,12 @@ def build_jobs(tier, seed):
             if quick and via == "read" and ci % 2:
                 continue
             jobs.append(("df", make_spec(via, "set", [], cs), None))
+    # --- json of float curves held in object-dtype arrays (operation history: set_data with a mixed array,
+    #     append_curve with an object array, set_data_from_df on a frame with a text column)
+    for cs in curve_sets(2, (3,), "api"):
+        if any(c["kind"] == "float" and None in c["vals"] for c in cs[1:]):
+            cs2 = [dict(c, objarr=True) if (c["kind"] == "float" and j > 0) else dict(c) for j, c in enumerate(cs)]
+            jobs.append(("json", make_spec("api", "set", [], cs2), None))
     # --- sampled LASFiles, every view
     for i in range(150 if quick else 1500):
         sp = rand_spec(rng)
